@@ -1,7 +1,14 @@
 import CacheProofs.Props.C16
-open Cache.FP
+import CacheProofs.Props.C16M
+open Cache.FP Cache.MM
 #print axioms C16_protected_symmetric
 #print axioms C16_only_expireAll_rewrites_expiry
 #print axioms C16_all_races_are_known_findings
 #print axioms C16_table_disciplined_elsewhere
 #print axioms C16_race_free_after_repair
+#print axioms C16_lockset
+#print axioms C16_atomic_discipline
+#print axioms C16_close_receive_ordered
+#print axioms C16_publication_ordered
+#print axioms C16_table_lock_clause_sound
+#print axioms C16_semantics_sees_F9a
